@@ -7,6 +7,10 @@ import OjgVerif.JPText.LemmasExpr
 import OjgVerif.JPText.PrecFilterExpr
 import OjgVerif.JPText.LemmasPrec
 import OjgVerif.JPText.LemmasEqn
+import OjgVerif.JPText.LemmasScript
+import OjgVerif.JPText.LemmasLeafy
+import OjgVerif.JPText.LemmasFilterExpr
+import OjgVerif.JPText.LemmasBracket
 /-! # C14 — JSONPath and script text forms round-trip
 
 Model: `JPText/Print.lean` (the printers), `JPText/Parse.lean` (jp/parse.go), over the regenerated
@@ -206,45 +210,234 @@ example : Eqn.pd (.bin Gen.JpOps.op_and
       (.un Gen.JpOps.op_not (.un Gen.JpOps.op_group (.bin Gen.JpOps.op_or (.val (.int 6)) (.val (.int 7)))))) = true := by
   decide
 
-/-! ## equations of ANY size: `Equation.String` is read back by `MustParseEquation` -/
+/-! ## equations of ANY size: all three text forms are read back -/
 
-/-- **C14, `Equation.String`, all sizes.** For EVERY equation `e` built from `Not` and the 19 binary
-constructors (`Eq … Regex`, `Match`, `Search`; any nesting, any size) over int64, boolean, null, Nothing
-and string constants (any bytes): `Equation.String` succeeds, `MustParseEquation` accepts the text and
-returns `Eqn.paren e` — `e` with a `group` node exactly where the printer wrote a parenthesis, the outermost
-excepted —, which prints identically and has the same script template up to `group` operators (evaluates
-identically). Proved by induction through `readEq`, `precedentCorrect` (`prec_correct_general`) and
-`reduceGroups`; no enumeration, no exception in this class.
+/-- **C14, `Equation.String`, all sizes.** For EVERY equation `e` built from `Not`, the 19 binary
+constructors (`Eq … Regex`, `Match`, `Search`) and `Get`/`Length`/`Count` of a filter-free path that starts
+with Root or At (any children, indexes, wildcards, descents, unions, slices), any nesting, any size, over
+int64, boolean, null, Nothing, string (any bytes), finite float constants, regex constants whose source
+`AppendString` leaves alone, and flat list constants (`Eqn.okC`): `Equation.String` succeeds,
+`MustParseEquation` accepts the text and returns `(Eqn.leafy e).paren` — `e` in the reader's form (`Get(p)` is
+the bare path, `2` is `2.0`, slices padded) with a `group` node exactly where the printer wrote a parenthesis,
+the outermost excepted —, which prints identically and has the same script template up to `group` operators
+and the normal form of the constants (evaluates identically). Proved by induction through `readEq`
+(`readEq_text`), `precedentCorrect` (`prec_correct_general`) and `reduceGroups`; no enumeration, no exception
+in this class.
 
 `…_partial`: excluded (covered by the finite boxes above and the correspondence run only) are equations
-with `Get`/`Length`/`Count` nodes (path operands), float, list and regex constants; the full statement is
-the second half of `C14_full`. -/
-theorem eqn_roundtrip_partial (e : Eqn) (h : e.okS = true) :
-    ∃ s, eqnString e = some s ∧ parseEquation s = some e.paren ∧ eqnString e.paren = some s ∧
-      sameTemplate e.paren.build e.build = true := by
-  obtain ⟨s, h1, h2⟩ := parseEquation_print e h
-  exact ⟨s, h1, h2, by rw [← h1]; exact print_paren_self e h true, sameTemplate_of_normL (normL_build_paren e h)⟩
+whose paths contain FILTER fragments (nested filters), nested list constants, and the objects with a named
+deviation (NaN/±Inf, regex sources that `AppendString` rewrites, paths not starting with Root/At, …); the full
+statement is the second half of `C14_full`. -/
+theorem eqn_roundtrip_partial (e : Eqn) (h : e.okC = true) :
+    ∃ s, eqnString e = some s ∧ parseEquation s = some e.leafy.paren ∧ eqnString e.leafy.paren = some s ∧
+      sameTemplate e.leafy.paren.build e.build = true := by
+  have hs := okS_leafy e h
+  obtain ⟨s, h1, h2⟩ := parseEquation_print e.leafy hs
+  refine ⟨s, ?_, h2, by rw [← h1]; exact print_paren_self e.leafy hs true, ?_⟩
+  · rw [← h1]; exact (print_leafy e h true).symm
+  · have := sameTemplate_of_normL (normL_build_paren e.leafy hs)
+    rw [(build_leafy e h).1, sameTemplate_imgI] at this
+    exact this
 
-theorem eqn_roundtrip_bool (e : Eqn) (h : e.okS = true) : roundTripsEqn e = true := roundTripsEqn_okS e h
+theorem eqn_roundtrip_bool (e : Eqn) (h : e.okC = true) : roundTripsEqn e = true := roundTripsEqn_okC e h
+
+/-- **C14, `Script.String` and `Filter.String`, all sizes.** For every equation `e` of the same class:
+`e.Script().String()` is accepted by `NewScript` and `e.Filter().String()` by `NewFilter`; the template read
+prints identically and equals the original template up to `group` operators and the normal form of the
+constants. (What is read is the template of `Eqn.parenS`: a `group` operator exactly where `Script.Append` wrote
+a parenthesis — as `Equation.Append` does, plus around an infix argument of `match`/`search`; LemmasScript.) By
+induction through the stack machine of `Script.Append` (`run_build`), `readEq`, `precedentCorrect`,
+`reduceGroups`. -/
+theorem script_roundtrip_partial (e : Eqn) (h : e.okC = true) :
+    (∃ t, parseScript (scriptPrint e.script) = some t ∧ scriptPrint t = scriptPrint e.script ∧
+      sameTemplate t e.script = true) ∧
+    (∃ t, parseFilter (filterPrint e.build) = some t ∧ filterPrint t = filterPrint e.build ∧
+      sameTemplate t e.build = true) := by
+  have h1 := roundTripsScript_okC e h
+  have h2 := roundTripsFilter_okC e h
+  unfold roundTripsScript at h1
+  unfold roundTripsFilter at h2
+  constructor
+  · cases hp : parseScript (scriptPrint e.script) with
+    | none => simp [hp] at h1
+    | some t => simp only [hp, Bool.and_eq_true, beq_iff_eq] at h1; exact ⟨t, rfl, h1.1, h1.2⟩
+  · cases hp : parseFilter (filterPrint e.build) with
+    | none => simp [hp] at h2
+    | some t => simp only [hp, Bool.and_eq_true, beq_iff_eq] at h2; exact ⟨t, rfl, h2.1, h2.2⟩
+
+/-- **C14 for equations, in the words of Spec.lean.** Every constructible equation (`Eqn.ok`) for which
+Spec.lean names no deviation (`devsEqn e = []`) and which is SHALLOW (no filter fragment inside a path operand,
+no list constant inside a list constant) round-trips in all three text forms — whatever its size. This is the
+second half of `C14_full` with exactly two restrictions: the named deviations (known findings) and shallowness
+(the part that is still covered by the correspondence run only). -/
+theorem eqn_roundtrip_spec (e : Eqn) (hok : e.ok = true) (hdev : devsEqn e = []) (hsh : e.shallow = true) :
+    roundTripsEqn e = true ∧ roundTripsScript e = true ∧ roundTripsFilter e = true :=
+  have h := okC_of_spec e hok hdev hsh
+  ⟨roundTripsEqn_okC e h, roundTripsScript_okC e h, roundTripsFilter_okC e h⟩
+
+/-- the hypotheses hold for `(@.a[1:] - 2.5) * 3 == count($..b) || 'x' in ['x', 1, null]` -/
+example : Eqn.ok (.bin Gen.JpOps.op_or
+      (.bin Gen.JpOps.op_eq
+        (.bin Gen.JpOps.op_mult (.bin Gen.JpOps.op_sub (.un Gen.JpOps.op_get (.val (.expr [.at, .child [97], .slice [1]]))) (.val (.flt [50, 46, 53]))) (.val (.int 3)))
+        (.un Gen.JpOps.op_count (.val (.expr [.root, .descent, .child [98]]))))
+      (.bin Gen.JpOps.op_in (.val (.str [120])) (.val (.list [.str [120], .int 1, .null])))) = true ∧
+    devsEqn (.bin Gen.JpOps.op_or
+      (.bin Gen.JpOps.op_eq
+        (.bin Gen.JpOps.op_mult (.bin Gen.JpOps.op_sub (.un Gen.JpOps.op_get (.val (.expr [.at, .child [97], .slice [1]]))) (.val (.flt [50, 46, 53]))) (.val (.int 3)))
+        (.un Gen.JpOps.op_count (.val (.expr [.root, .descent, .child [98]]))))
+      (.bin Gen.JpOps.op_in (.val (.str [120])) (.val (.list [.str [120], .int 1, .null])))) = [] ∧
+    Eqn.shallow (.bin Gen.JpOps.op_or
+      (.bin Gen.JpOps.op_eq
+        (.bin Gen.JpOps.op_mult (.bin Gen.JpOps.op_sub (.un Gen.JpOps.op_get (.val (.expr [.at, .child [97], .slice [1]]))) (.val (.flt [50, 46, 53]))) (.val (.int 3)))
+        (.un Gen.JpOps.op_count (.val (.expr [.root, .descent, .child [98]]))))
+      (.bin Gen.JpOps.op_in (.val (.str [120])) (.val (.list [.str [120], .int 1, .null])))) = true := by
+  decide +kernel
+
+/-- **all three text forms of every equation of the class round-trip** (the general counterpart of
+`prec_small_all`) -/
+theorem eqn_all_three (e : Eqn) (h : e.okC = true) : allThree e = true := by
+  simp [allThree, roundTripsEqn_okC e h, roundTripsScript_okC e h, roundTripsFilter_okC e h]
+
+theorem okL_of_cleanTail : ∀ r : List Frag, cleanTail r = true → Frag.okL r = true := by
+  intro r
+  induction r with
+  | nil => intro _; rfl
+  | cons f r ih =>
+    intro h
+    simp only [cleanTail, Bool.and_eq_true] at h
+    have : f.ok = true := by
+      cases f <;> simp_all [Frag.clean, Frag.ok]
+      rename_i ms
+      intro m hm
+      have := h.1.2 m hm
+      cases m <;> simp_all [UMem.goodB, UMem.ok]
+    simp [Frag.okL, this, ih h.2]
 
 /-- the class is inside the constructible equations -/
-theorem okS_ok : ∀ e : Eqn, e.okS = true → e.ok = true := by
+theorem okC_ok : ∀ e : Eqn, e.okC = true → e.ok = true := by
   intro e
   induction e with
-  | val v => intro h; cases v <;> simp_all [Eqn.okS, Eqn.ok, Val.simple, Val.ok]
+  | val v =>
+    intro h
+    cases v with
+    | list vs =>
+      simp only [Eqn.okC, Val.okC] at h
+      have : Val.okL vs = true := by
+        induction vs with
+        | nil => rfl
+        | cons v r ih =>
+          simp only [List.all_cons, Bool.and_eq_true] at h
+          have hv := h.1
+          cases v <;> simp_all [Val.scalarC, Val.okL, Val.ok]
+      simp [Eqn.ok, Val.ok, this]
+    | expr x => simp [Eqn.okC, Val.okC] at h
+    | flt t => simp_all [Eqn.okC, Val.okC, Val.scalarC, Eqn.ok, Val.ok]
+    | _ => simp_all [Eqn.okC, Val.okC, Val.scalarC, Eqn.ok, Val.ok]
   | un o l ih =>
     intro h
-    simp only [Eqn.okS, Bool.and_eq_true, beq_iff_eq] at h
-    simp [Eqn.ok, h.1, ih h.2]
+    rcases okC_un_cases h with ⟨ho, hl⟩ | ⟨ho, x, hx, hc⟩
+    · simp [Eqn.ok, ho, ih hl]
+    · subst hx
+      have hx : Frag.okL x = true := by
+        cases x with
+        | nil => simp [cleanPath] at hc
+        | cons f r =>
+          simp only [cleanPath, Bool.and_eq_true] at hc
+          have : f.ok = true := by cases f <;> simp_all [Frag.isRootAt, Frag.ok]
+          simp [Frag.okL, this, okL_of_cleanTail r hc.2]
+      rcases ho with ho | ho | ho <;> subst ho <;> simp [Eqn.ok, hx] <;> decide
   | bin o l r ihl ihr =>
     intro h
-    simp only [Eqn.okS, Bool.and_eq_true] at h
+    simp only [Eqn.okC, Bool.and_eq_true] at h
     simp only [Eqn.ok, h.1, ihl h.2.1, ihr h.2.2, Bool.and_self]
 
-/-- the hypothesis holds for `!(1 - (2 - 'a\xff')) && match(null, true || false) ~= Nothing` -/
-example : Eqn.okS (.bin Gen.JpOps.op_and
-    (.un Gen.JpOps.op_not (.bin Gen.JpOps.op_sub (.val (.int 1)) (.bin Gen.JpOps.op_sub (.val (.int 2)) (.val (.str [97, 0xFF])))))
-    (.bin Gen.JpOps.op_rx (.bin Gen.JpOps.op_match (.val .null) (.bin Gen.JpOps.op_or (.val (.bool true)) (.val (.bool false))))
-      (.val .nothing))) = true := by decide
+/-- the hypothesis holds for
+`!(1 - (2.5 - 'a\xff')) && match(@.a[1:], true || length($..b) > 3) ~= /x.y/ || @.c in [1,'z',null]` -/
+example : Eqn.okC (.bin Gen.JpOps.op_or (.bin Gen.JpOps.op_and
+    (.un Gen.JpOps.op_not (.bin Gen.JpOps.op_sub (.val (.int 1)) (.bin Gen.JpOps.op_sub (.val (.flt [50, 46, 53])) (.val (.str [97, 0xFF])))))
+    (.bin Gen.JpOps.op_rx (.bin Gen.JpOps.op_match (.un Gen.JpOps.op_get (.val (.expr [.at, .child [97], .slice [1]])))
+        (.bin Gen.JpOps.op_or (.val (.bool true))
+          (.bin Gen.JpOps.op_gt (.un Gen.JpOps.op_length (.val (.expr [.root, .descent, .child [98]]))) (.val (.int 3)))))
+      (.val (.regex [120, 46, 121]))))
+    (.bin Gen.JpOps.op_in (.un Gen.JpOps.op_get (.val (.expr [.at, .child [99]])))
+      (.val (.list [.int 1, .str [122], .null])))) = true := by decide +kernel
+
+/-! ## expressions that carry filters, any size -/
+
+/-- **C14, expressions with filter fragments.** For EVERY expression `x` whose fragments (after an optional
+leading Root/At) are clean fragments (children with any key, indexes, wildcards, descents, unions, slices — as
+in `expr_roundtrip_partial`) or FILTER fragments `Filter(e)` with `e` any equation of the class of
+`eqn_roundtrip_partial` (`Eqn.okC`: any size, all operators, all constant kinds, path operands filter-free), in
+BOTH text forms: the printed text is accepted, the re-parsed expression prints identically and equals `x` up to
+the normal form (wildcard flag, slice padding, `group` operators, float text). Nested `readExpr` inside `readEq`
+inside `readExpr`, by induction (`readExprLoop_gen`, `readFilter_text`); the general counterpart of
+`filter_expr_pairs_all`.
+
+`…_partial`: excluded are filters whose equations have path operands that carry filters THEMSELVES (filters
+nested two or more levels deep — correspondence run only), and the named deviations. -/
+theorem expr_filter_roundtrip_partial (br : Bool) (x : Expr) (h : ExprOKF x) :
+    ∃ y, parseExpr (exprPrint br x) = some y ∧ exprPrint br y = exprPrint br x ∧ sameExpr y x = true :=
+  parseExpr_filter br x h
+
+/-- `$.list[?(@.a > 1 && !(@.b in [1,2]))].x[?(length(@..c) == 2.5)]` satisfies the hypothesis -/
+example : ExprOKF [.root, .child [108, 105, 115, 116],
+    .filter (Eqn.bin Gen.JpOps.op_and
+      (.bin Gen.JpOps.op_gt (.un Gen.JpOps.op_get (.val (.expr [.at, .child [97]]))) (.val (.int 1)))
+      (.un Gen.JpOps.op_not (.bin Gen.JpOps.op_in (.un Gen.JpOps.op_get (.val (.expr [.at, .child [98]])))
+        (.val (.list [.int 1, .int 2]))))).build,
+    .child [120],
+    .filter (Eqn.bin Gen.JpOps.op_eq (.un Gen.JpOps.op_length (.val (.expr [.at, .descent, .child [99]])))
+      (.val (.flt [50, 46, 53]))).build] := by
+  refine ⟨Or.inl rfl, ?_⟩
+  intro g hg
+  simp only [List.mem_cons, List.not_mem_nil, or_false] at hg
+  rcases hg with hg | hg | hg | hg
+  · subst hg; exact Or.inl rfl
+  · subst hg; exact Or.inr ⟨_, by decide +kernel, rfl⟩
+  · subst hg; exact Or.inl rfl
+  · subst hg; exact Or.inr ⟨_, by decide +kernel, rfl⟩
+
+/-! ## API-built expressions with the `Bracket` flag fragment (`jp.B()`) -/
+
+/-- `BracketString()` does not see the flags: for EVERY expression with flags anywhere, the text is the
+text of the expression without them; so C14 for `BracketString()` holds for every filter-free constructible
+expression whatever flags it carries (with `expr_roundtrip_partial`). -/
+theorem bracket_string_flags (x : BExpr) (hok : Frag.okL (stripB x) = true) (hnf : noFilter (stripB x) = true)
+    (hdev : devsExpr true (stripB x) = []) :
+    bexprPrint true x = exprPrint true (stripB x) ∧ roundTripsBExpr true x = true ∧ bracketReprint true x = false :=
+  ⟨bexprPrint_true x, by rw [roundTripsBExpr_true]; exact expr_roundtrip_bool true _ hok hnf hdev,
+    bracketReprint_true x⟩
+
+/-- `R().B().C("a").D().B().N(3).B()` satisfies the hypotheses -/
+example : Frag.okL (stripB [some .root, none, some (.child [97]), some .descent, none, some (.nth 3), none]) = true ∧
+    noFilter (stripB [some .root, none, some (.child [97]), some .descent, none, some (.nth 3), none]) = true ∧
+    devsExpr true (stripB [some .root, none, some (.child [97]), some .descent, none, some (.nth 3), none]) = [] := by
+  decide +kernel
+
+/-- `String()` with flags, the small box: for every sequence of at most four fragments over Root, At, a
+token-like child, a quoted child, an index, a wildcard, a descent, a union, a slice and the flag (every
+sequence of length ≤ 3; every sequence of length 4 that has a flag — the flag first, in the middle, directly
+after a descent, last, repeated) the round trip holds EXACTLY when no deviation is named: `devsExpr` of the
+flag-free expression (Root/At not first) and `bracketReprint` (known finding C14-bracket-flag: the flag has no
+text, the re-parsed expression prints in dot notation). Kernel evaluation. -/
+theorem bracket_box_exact :
+    ((boxSeqs 1 ++ boxSeqs 2 ++ boxSeqs 3).all bexact && boxSeqs4.all bexact) = true := by
+  rw [bracketBox_exact3, bracketBox_exact4]; rfl
+
+/-- the flag has no text form: `R().B().C("a")` prints `$['a']`, which is read as `$.a` and printed so (known
+finding C14-bracket-flag); so C14 at full strength over API-built expressions WITH flags is false too -/
+theorem bracket_flag_witness :
+    bexprPrint false [some .root, none, some (.child [97])] = [36, 91, 39, 97, 39, 93] ∧
+    (parseExpr [36, 91, 39, 97, 39, 93]).map (exprPrint false) = some [36, 46, 97] ∧
+    roundTripsBExpr false [some .root, none, some (.child [97])] = false ∧
+    bracketReprint false [some .root, none, some (.child [97])] = true := by
+  decide +kernel
+
+/-- the expression of the seeded change C14-m7, `R().D().B().C("a b")`: `$..['a b']`, read back -/
+theorem bracket_after_descent :
+    bexprPrint false [some .root, some .descent, none, some (.child [97, 32, 98])] =
+      [36, 46, 46, 91, 39, 97, 32, 98, 39, 93] ∧
+    roundTripsBExpr false [some .root, some .descent, none, some (.child [97, 32, 98])] = true :=
+  descent_flag_text
 
 end OjgVerif.C14
